@@ -319,9 +319,11 @@ func buildBlock(cidr string, size int) func(uint64) any {
 	}
 }
 
+// node variant v: v/3 selects the IPv4 side and the labels, v%3 the IPv6 address (none / a / b), so that two
+// variants with the same v/3 differ ONLY in spec.bgp.ipv6Address (in-place IPv6 re-addressing).
 func buildNode(name string, idx int) func(uint64) any {
 	return func(v uint64) any {
-		r := &rng{s: v*7 + uint64(idx)}
+		r := &rng{s: (v/3)*7 + uint64(idx)}
 		n := &internalapi.Node{
 			TypeMeta:   metav1.TypeMeta{Kind: internalapi.KindNode, APIVersion: v3.GroupVersionCurrent},
 			ObjectMeta: metav1.ObjectMeta{Name: name},
@@ -340,10 +342,27 @@ func buildNode(name string, idx int) func(uint64) any {
 		if r.chance(30) {
 			n.Labels = map[string]string{"rack": pick(r, []string{"r1", "r2"})}
 		}
-		if n.Spec.BGP != nil && r.chance(25) {
-			n.Spec.BGP.IPv6Address = fmt.Sprintf("dead:beef::%d/64", idx+1)
+		if n.Spec.BGP != nil {
+			switch v % 3 {
+			case 1:
+				n.Spec.BGP.IPv6Address = fmt.Sprintf("dead:beef::%d/64", idx+1)
+			case 2:
+				n.Spec.BGP.IPv6Address = fmt.Sprintf("dead:beef::1:%d/64", idx+1)
+			}
 		}
 		return n
+	}
+}
+
+func buildTunnelAddrV6(idx int) func(uint64) any {
+	return func(v uint64) any {
+		return fmt.Sprintf("fd00:10:%d::%d", idx, 1+v%2)
+	}
+}
+
+func buildTunnelMACV6(idx int) func(uint64) any {
+	return func(v uint64) any {
+		return fmt.Sprintf("10:f3:27:5c:47:%02x", idx*16+int(v%2))
 	}
 }
 
@@ -428,10 +447,14 @@ func universe() []*ukey {
 	add("blk-10.0.1", "block", model.BlockKey{CIDR: netip.MustParsePrefix("10.0.1.0/29")}, 40, buildBlock("10.0.1.0/29", 8))
 	add("blk-11.0.0", "block", model.BlockKey{CIDR: netip.MustParsePrefix("11.0.0.0/30")}, 40, buildBlock("11.0.0.0/30", 4))
 	for i, h := range hosts {
-		add("node-"+h, "node", model.ResourceKey{Kind: internalapi.KindNode, Name: h}, 12, buildNode(h, i))
+		add("node-"+h, "node", model.ResourceKey{Kind: internalapi.KindNode, Name: h}, 36, buildNode(h, i))
+		if i > 0 {
+			add("vtep6-"+h, "hcfg", model.HostConfigKey{Hostname: h, Name: "IPv6VXLANTunnelAddr"}, 2, buildTunnelAddrV6(i))
+		}
 		add("vtep-"+h, "hcfg", model.HostConfigKey{Hostname: h, Name: "IPv4VXLANTunnelAddr"}, 2, buildTunnelAddr(i))
 	}
 	add("vmac-"+hosts[1], "hcfg", model.HostConfigKey{Hostname: hosts[1], Name: "VXLANTunnelMACAddr"}, 2, buildTunnelMAC(1))
+	add("vmac6-"+hosts[1], "hcfg", model.HostConfigKey{Hostname: hosts[1], Name: "VXLANTunnelMACAddrV6"}, 2, buildTunnelMACV6(1))
 	// profiles with dataplane significance (ProfileDecoder): a Kubernetes namespace and a service account
 	add("Lkns.ns1", "plabel", model.ResourceKey{Kind: v3.KindProfile, Name: "kns.ns1"}, 8, buildSpecialProfile("kns.ns1", "pcns."))
 	add("Lksa.ns1.sa1", "plabel", model.ResourceKey{Kind: v3.KindProfile, Name: "ksa.ns1.sa1"}, 8, buildSpecialProfile("ksa.ns1.sa1", "pcsa."))
